@@ -6,6 +6,7 @@ import (
 	"fmt"
 	"os"
 	"path/filepath"
+	"strings"
 	"time"
 
 	"verifharness/internal/core"
@@ -18,7 +19,7 @@ import (
 func init() {
 	core.Register(&core.Simple{
 		Id: "C08", Lvl: "exploration", Quick: 640, Thorough: 20000, PerBatch: 160, Width: 160, Timeout: 1800,
-		RuleText: "each case downloads one generated file (sizes 0,1,2,511,512,513,32767,32768,32769,65536,1 MiB and random, thorough up to 16 MiB; names over ASCII and Mac-Roman high bytes, in the root or a sub-folder; with/without stored info and resource forks) in one mode: full (a few of them read by a peer with a 32 KiB window that stalls for 11 s mid-transfer), resume at k in {0,1,size/2,size-1,size,random}, or preview; the request goes through the real connection loop, the transfer through the real handleFileTransfer; a reference client reads the whole stream until the handler returns and a reference parser checks header consistency, exactly file[k:], resource fork framing, and the reply's size fields. distinct = (size class, mode, forks, name class); non-trivial = size > 0",
+		RuleText: "each case downloads one generated file (sizes 0,1,2,511,512,513,32767,32768,32769,65536,1 MiB and random, thorough up to 16 MiB; names over ASCII and Mac-Roman high bytes, in the root or a sub-folder; with/without stored info and resource forks; in a sixth of the cases a stale '<name>.incomplete' of an interrupted upload sits next to the complete file) in one mode: full (a few of them read by a peer with a 32 KiB window that stalls for 11 s mid-transfer), resume at k in {0,1,size/2,size-1,size,random}, or preview (the option sent as a 2-byte or a 4-byte integer); the request goes through the real connection loop, the transfer through the real handleFileTransfer; a reference client reads the whole stream until the handler returns and a reference parser checks header consistency, exactly file[k:], resource fork framing, and the reply's size fields. distinct = (size class, mode, forks, name class); non-trivial = size > 0",
 		Case:     runCase,
 	})
 }
@@ -104,6 +105,10 @@ func runCase(c *core.Case) {
 	if forks == "info" || forks == "info+rsrc" {
 		comment = r.Printable(r.Intn(200))
 	}
+	stalePartial := r.Chance(1, 6)
+	if stalePartial {
+		c.Count("stale_partial_next_to_the_file", 1)
+	}
 	srv, err := fixture.New(fixture.Options{PreserveForks: r.Bool(), Files: func(root string) {
 		dir := root
 		for _, s := range sub {
@@ -120,6 +125,10 @@ func runCase(c *core.Case) {
 		}
 		if rsrc != nil {
 			os.WriteFile(filepath.Join(dir, ".rsrc_"+disk), rsrc, 0644)
+		}
+		if stalePartial {
+			// what an interrupted upload of the same name leaves behind when another file is later renamed to it
+			os.WriteFile(filepath.Join(dir, disk+".incomplete"), []byte("stale partial upload "+strings.Repeat("?", 70000)), 0644)
 		}
 	}})
 	if err != nil {
@@ -156,7 +165,11 @@ func runCase(c *core.Case) {
 	if size == 0 {
 		c.Describe("", map[string]any{"size": 0, "mode": mode})
 	}
-	d := xfer.RequestDownload(cl, name, sub, k, mode == "preview")
+	widePreview := mode == "preview" && r.Bool()
+	if widePreview {
+		c.Count("preview_option_as_4_bytes", 1)
+	}
+	d := xfer.RequestDownloadEnc(cl, name, sub, k, mode == "preview", widePreview)
 	if !d.OK {
 		c.Fail("C08/request-refused", "download request for an existing file refused: %v", d.Reply)
 		return
